@@ -10,6 +10,7 @@ CONSTANTS
   CanRead = {"r"}
   CanPrune = {}
   CanForget = {}
+  CanRewrite = {}
   CanTag = {}
   Budget <- Budget1
   Variant = "reader_index_first"
@@ -20,6 +21,7 @@ INVARIANTS
   IndexSound
   ReaderOK
   TagNeverLoses
+  RewriteNeverLoses
 PROPERTIES
   W1
   W2
